@@ -575,6 +575,7 @@ func RunStall(o *hx.Out, g *hx.Rng, tier string) {
 func RunShift(o *hx.Out, g *hx.Rng, tier string) {
 	o.Res.Rule = baseRule + "each abstract history is run at placement 0/0/0 and at a placement straddling 2^31 or 2^32 (or random); transcripts must agree after un-shifting"
 	w := &world{o: o, g: g, tier: tier}
+	w.fixedAll()
 	for i := 0; i < scaled(tier, 40, 700); i++ {
 		w.shiftPair()
 	}
@@ -593,6 +594,7 @@ func RunMtu(o *hx.Out, g *hx.Rng, tier string) {
 func RunForge(o *hx.Out, g *hx.Rng, tier string) {
 	o.Res.Rule = baseRule + "forged/mutated/truncated/spliced/random datagrams injected at any point (fields at boundary values relative to the live state)"
 	w := &world{o: o, g: g, tier: tier}
+	w.fixedAll()
 	for i := 0; i < scaled(tier, 100, 2000); i++ {
 		w.history(cfg{forge: true, bigMsg: i%10 == 0})
 	}
